@@ -298,3 +298,17 @@ Theorem C04_fourier_pair_exponential_3d_generated : forall ora (ls rs k : R), 0 
               (Formulas_gen.Exponential_spectral_density (Rops ora) (ls / rs) (IZR 3) k).
 Proof. exact fourier_pair_exponential_3d_gen. Qed.
 Print Assumptions C04_fourier_pair_exponential_3d_generated.
+
+(* the translated rad_fac is the surface of the (d-1)-sphere, 2 pi^(d/2) / Gamma(d/2) r^(d-1)  (pi^(d/2) = sqrt(pi)^d):
+   d = 1, 2, 3 from three Gamma values; EVERY d >= 4 (general branch: 3D + time, lat-lon + time, ...) from the recurrence
+   Gamma(d/2 + 1) = d/2 Gamma(d/2) assumed of scipy's gamma at that d *)
+Theorem C04_rad_fac_is_sphere_surface_dim_1_2_3 : forall ora (d : Z) r, (1 <= d <= 3)%Z -> 0 < r ->
+  ora ORA_GAMMA [1 / 2] = sqrt PI -> ora ORA_GAMMA [2 / 2] = 1 -> ora ORA_GAMMA [3 / 2] = sqrt PI / 2 ->
+  Formulas_gen.rad_fac (Rops ora) (IZR d) r = 2 * Rpow (sqrt PI) (IZR d) / ora ORA_GAMMA [IZR d / 2] * Rpow r (IZR (d - 1)).
+Proof. exact rad_fac_sphere_surface_low. Qed.
+Print Assumptions C04_rad_fac_is_sphere_surface_dim_1_2_3.
+Theorem C04_rad_fac_is_sphere_surface_general_dim : forall ora (d : Z) r, (4 <= d)%Z ->
+  ora ORA_GAMMA [IZR d / 2 + 1] = IZR d / 2 * ora ORA_GAMMA [IZR d / 2] -> ora ORA_GAMMA [IZR d / 2] <> 0 ->
+  Formulas_gen.rad_fac (Rops ora) (IZR d) r = 2 * Rpow (sqrt PI) (IZR d) / ora ORA_GAMMA [IZR d / 2] * Rpow r (IZR (d - 1)).
+Proof. exact rad_fac_sphere_surface_general. Qed.
+Print Assumptions C04_rad_fac_is_sphere_surface_general_dim.
